@@ -147,6 +147,8 @@ pub fn program_update(bytecode: &Bytecode, param_compat: bool) -> ProgramUpdate 
     }
 }
 
+pub const RUN_WALL_LIMIT_S: u64 = 20;
+
 /// Run bytecode in a single executor (one process, actions dropped) with a quantum and a budget
 /// counted in instruction units (approximately: slices × quantum).
 pub fn run_sync(bytecode: &Bytecode, reg: &Registry, quantum: usize, budget_units: u64, profile: bool) -> Run {
@@ -172,7 +174,14 @@ pub fn run_sync_hook(
         .expect("spawn");
     let mut used: u64 = 0;
     let mut slices = 0u64;
+    // The unit budget does not see the cost of a single instruction (a loop that multiplies an
+    // ever-growing bignum stays within any instruction count for hours): a wall-clock limit,
+    // checked between slices, also ends the run as Diverged — inconclusive, never a verdict.
+    let deadline = std::time::Instant::now() + std::time::Duration::from_secs(RUN_WALL_LIMIT_S);
     loop {
+        if slices % 16 == 15 && std::time::Instant::now() > deadline {
+            return Run { end: RunEnd::Diverged, executor, slices };
+        }
         let (did, _action) = executor.step(quantum, 0);
         slices += 1;
         used += quantum.min(1000) as u64;
